@@ -138,6 +138,25 @@ def S_pi_add(e, I, O):
     return AND(eq(res(e, z), addmod(e, res(e, x), res(e, y))), wellformed(e, z))
 
 
+def _sel_value(e, I):
+    """inputs of the add_select_* harness ops: condition bit, then x, y, z, w; value = c ? w : x + y + z"""
+    c = I[0]
+    x, y, z, w = split(e, I[1:])[:4]
+    s3 = addmod(e, addmod(e, res(e, x), res(e, y)), res(e, z))
+    return c, ITE(eq(c, 1), res(e, w), s3), (x, y, z, w)
+
+
+def S_add_select_is_zero(e, I, O):
+    c, v, _ = _sel_value(e, I)
+    return AND(isbit(c), isbit(O[0]), eq(O[0], b2i(eq(v, 0))))
+
+
+def S_add_select_pi(e, I, O):
+    c, v, _ = _sel_value(e, I)
+    zl = O[:int(e.extra["nb_limbs"])]
+    return AND(isbit(c), eq(res(e, zl), v), wellformed(e, zl))
+
+
 def entry(field, op, spec, ins, params=None, alt=(), k=11, variants=()):
     p = dict(params or {})
     p["field"] = field
@@ -171,6 +190,15 @@ def family(tier, seed):
         E.append(entry(f, "sub_mul", S_add_mul("sub_mul"), [r(), r(), r()], alt=[[0, m - 1, m - 1], [0, 0, 0]]))
         E.append(entry(f, "pi", S_pi, [r()], alt=[[0], [m - 1]]))
         E.append(entry(f, "add_pi", S_pi_add, [r(), r()], alt=[[m - 1, m - 1], [0, 0], [1, m - 1]]))
+        # select between a well-formed element and an un-normalised three-term sum, then a consumer that depends on
+        # the bounds bookkeeping of the selected element (added after seeded C05-c); alt inputs: sums that carry in a
+        # limb and are congruent to zero, selected (c = 0) and not selected (c = 1)
+        a, b = r(), r()
+        zz = (-(a + b)) % m
+        if not (tier == "quick" and FIELDS[f].get("nb_limbs", 0) > 4 or (tier == "quick" and f == "blsfp")):   # 7-limb field: > 60 s, thorough only
+          E.append(entry(f, "add_select_is_zero", S_add_select_is_zero, [0, a, b, zz, r()],
+                       alt=[[0, m - 1, m - 1, 2, 5], [1, a, b, zz, 0], [1, a, b, zz, 7], [0, a, b, (zz + 1) % m, 0], [0, m - 1, m - 1, m - 1, 0]]))
+        E.append(entry(f, "add_select_pi", S_add_select_pi, [0, a, b, r(), r()], alt=[[0, m - 1, m - 1, m - 1, 1], [1, a, b, zz, m - 1], [0, a, b, zz, 3]]))
     return E
 
 
